@@ -53,6 +53,8 @@ def generate(run_seed, tier):
                         pool_knobs=True, knob_prob=0.6)
         g.allow_partition_size = True
         g.accept_internal_failures = True
+        # hand-written filtered tasks live in every source kind: draw them evenly
+        g.source_kinds = ("from_pandas", "from_pandas", "from_map", "from_map", "from_delayed", "from_delayed", "from_array")
         recipe = g.generate(n_targets=rw.choice([1, 2, 2]))
         if recipe is None or not recipe["targets"]:
             return None
